@@ -1,5 +1,6 @@
 """C02 — exact MLL / LOO / SumMLL equal their dense definitions in value AND gradient (Engine G).
 
+Completeness: every prior handed to a constructor of a module of the model is among the priors the model reports (prior-registered).
 Reference (per batch element): [ log N(y; m, K+S) + sum of log prior densities of the constrained values + added loss terms ] / n,
 built densely in plain torch from one eager evaluation of the model's kernel / mean / likelihood with autograd switched on, so
 that torch.autograd of the reference gives the reference gradient w.r.t. every raw parameter. Prior terms are evaluated entry by
@@ -185,6 +186,34 @@ def dense_objective(model, X, y, obj, mb=(), with_priors=True):
     return total / n_obs, B
 
 
+def missing_priors(cell, model):
+    """Priors the harness handed to a constructor whose module is part of the model, but which the model does not report
+    (the reference above enumerates the registry, so a registration that is silently dropped would otherwise be invisible to it).
+    Only the unambiguous sites are judged: the likelihood's noise / task prior, the ConstantMean prior, and the lengthscale / outputscale
+    priors of the families that use the ScaleKernel(RBF) they were given to."""
+    have = [type(p_).__name__ for _, _, p_, _, _ in model.named_priors()]
+    want = []
+    pri, fam = cell["priors"], cell["fam"]
+    if "noise" in pri and type(model.likelihood).__name__ == "GaussianLikelihood":
+        want.append("LogNormalPrior")
+    if "task" in pri and fam in ("multitask", "multitask_r0", "multitask_notask"):
+        want.append("LKJCovariancePrior")
+    if "const" in pri and type(model.mean_module).__name__ == "ConstantMean":
+        want.append("NormalPrior")
+    if fam in ("exact", "fixednoise", "fixednoise_learn", "fwdkw"):
+        if "shared" in pri:
+            want += ["GammaPrior", "GammaPrior"]
+        else:
+            want += ["GammaPrior"] * ("ls" in pri) + (["SmoothedBoxPrior"] if "os_box" in pri else ["HalfCauchyPrior"] if "os" in pri else [])
+    miss = []
+    for w in want:
+        if w in have:
+            have.remove(w)
+        else:
+            miss.append(w)
+    return miss
+
+
 def run_cell(cell, seed):
     fails = Fails()
     feats = {k: cell[k] for k in ("obj", "fam", "path")}
@@ -193,6 +222,10 @@ def run_cell(cell, seed):
     if cell["obj"] == "summll":
         return run_summll(cell, seed, feats)
     model, X, y = build(cell, seed)
+    miss = missing_priors(cell, model)
+    if miss:
+        fails.append({"sub": "prior-registered", "symptom": "a prior given to a constructor is not among the model's priors: " + ", ".join(miss),
+                      "detail": "", "features": feats})
     cls = gpytorch.mlls.ExactMarginalLogLikelihood if cell["obj"] == "mll" else gpytorch.mlls.LeaveOneOutPseudoLikelihood
     mll = cls(model.likelihood, model)
     params = [p for _, p in sorted(model.named_parameters())]
